@@ -8,6 +8,13 @@ pub const V2_JSON: &str = include_str!("/repo/paseto-test/tests/vectors/v2.json"
 pub const V3_JSON: &str = include_str!("/repo/paseto-test/tests/vectors/v3.json");
 pub const V4_JSON: &str = include_str!("/repo/paseto-test/tests/vectors/v4.json");
 
+/// the same kind of key with the private exponent in its other common form (d = e^-1 mod (p-1)(q-1),
+/// as written by Go, older OpenSSL and the rsa crate itself, instead of mod lcm(p-1, q-1))
+pub const RSA2048_PHI: [(&str, &str); 2] = [
+    (include_str!("../../fixtures/rsa2048_phi_0.pem"), include_str!("../../fixtures/rsa2048_phi_0.pub.pem")),
+    (include_str!("../../fixtures/rsa2048_phi_1.pem"), include_str!("../../fixtures/rsa2048_phi_1.pub.pem")),
+];
+
 pub const RSA2048: [(&str, &str); 4] = [
     (include_str!("../../fixtures/rsa2048_0.pem"), include_str!("../../fixtures/rsa2048_0.pub.pem")),
     (include_str!("../../fixtures/rsa2048_1.pem"), include_str!("../../fixtures/rsa2048_1.pub.pem")),
@@ -29,8 +36,8 @@ pub const RSA_WRONG: [(u32, &str, &str); 4] = [
 /// (PEM text, is_secret)
 pub fn pool_key(kind: Kind, idx: usize) -> Option<(&'static str, bool)> {
     match kind {
-        Kind::Secret => Some((RSA2048[idx % 4].0, true)),
-        Kind::Public => Some((RSA2048[idx % 4].1, false)),
+        Kind::Secret => Some((if idx % 6 < 4 { RSA2048[idx % 6].0 } else { RSA2048_PHI[idx % 6 - 4].0 }, true)),
+        Kind::Public => Some((if idx % 6 < 4 { RSA2048[idx % 6].1 } else { RSA2048_PHI[idx % 6 - 4].1 }, false)),
         Kind::PkeSecret => Some((RSA4096[idx % 2].0, true)),
         Kind::PkePublic => Some((RSA4096[idx % 2].1, false)),
         Kind::Local => None,
